@@ -12,8 +12,51 @@ open Pool
 
 /-! ## admission -/
 
+/-- **C18 (admission is sound).**  `send_transaction` succeeds with cycles `c` only if the
+transaction passes the structural checks, its inputs are pairwise distinct, every input and every
+(expanded) cell dep resolves to a cell the client knows — in the store, or an output of a pending
+transaction — the since/maturity and capacity checks pass at the current tip, and the scripts
+pass consuming exactly `c` cycles. -/
+theorem admit_sound (s s' : St) (hash outputs : Nat) (inputs deps : List OutPointRef)
+    (v : Verdicts) (c : Nat)
+    (h : sendTransaction s hash outputs inputs deps v = (s', .ok c)) :
+    v.nonContextual = true ∧ inputs.Nodup ∧
+    (∀ o ∈ inputs ++ deps, cellKnown s o = true) ∧
+    v.timeRelative = true ∧ v.capacity = true ∧ v.script = some c ∧
+    s' = push s hash c outputs := by
+  unfold sendTransaction at h
+  split at h
+  · rename_i c' hv
+    simp only [Prod.mk.injEq, Except.ok.injEq] at h
+    obtain ⟨h1, h2⟩ := h
+    subst h1 h2
+    rw [verifyTx_eq_ok] at hv
+    obtain ⟨a, b, c, d, e, f⟩ := hv
+    exact ⟨a, b, c, d, e, f, rfl⟩
+  · simp at h
 
+/-- **C18 (a rejected transaction is never stored).**  Whatever the reason, a failing
+`send_transaction` leaves pool, store and relay state exactly as they were. -/
+theorem reject_unchanged (s s' : St) (hash outputs : Nat) (inputs deps : List OutPointRef)
+    (v : Verdicts) (r : Reject)
+    (h : sendTransaction s hash outputs inputs deps v = (s', .error r)) :
+    s' = s := by
+  unfold sendTransaction at h
+  split at h
+  · simp at h
+  · simp only [Prod.mk.injEq] at h
+    exact h.1.symm
 
+/-- **C18 (completeness of admission).**  Conversely every transaction meeting those conditions
+is admitted. -/
+theorem admit_complete (s : St) (hash outputs : Nat) (inputs deps : List OutPointRef)
+    (v : Verdicts) (c : Nat)
+    (h1 : v.nonContextual = true) (h2 : inputs.Nodup)
+    (h3 : ∀ o ∈ inputs ++ deps, cellKnown s o = true)
+    (h4 : v.timeRelative = true) (h5 : v.capacity = true) (h6 : v.script = some c) :
+    sendTransaction s hash outputs inputs deps v = (push s hash c outputs, .ok c) := by
+  have hv : verifyTx s inputs deps v = .ok c := (verifyTx_eq_ok s inputs deps v c).2 ⟨h1, h2, h3, h4, h5, h6⟩
+  simp [sendTransaction, hv]
 
 /-! ## the pool -/
 
@@ -21,8 +64,70 @@ open Pool
 def PoolInv (s : St) : Prop :=
   s.pool.length ≤ s.limit ∧ (s.pool.map (·.hash)).Nodup
 
+/-- **C18 (pool bound).**  Starting from an empty pool, after any history of submissions,
+connects, disconnects, relay ticks and commits the pool holds at most `limit` entries and at most
+one entry per hash. -/
+theorem pool_bound (limit : Nat) (evs : List Ev) :
+    PoolInv (evs.foldl (fun s ev => (step s ev).1) ⟨limit, [], [], []⟩) := by
+  have key : ∀ (evs : List Ev) (s : St), PoolInv s →
+      PoolInv (evs.foldl (fun s ev => (step s ev).1) s) := by
+    intro evs
+    induction evs with
+    | nil => intro s h; exact h
+    | cons ev rest ih =>
+      intro s h
+      rw [List.foldl_cons]
+      exact ih _ (step_poolInv s ev h)
+  exact key evs _ ⟨Nat.zero_le _, List.nodup_nil⟩
 
+/-- **C18 (oldest evicted first).**  Admitting a new hash into a full pool evicts exactly the
+least recently inserted entry. -/
+theorem evicts_oldest (s : St) (hash cycles outputs : Nat)
+    (hfull : s.pool.length = s.limit) (hpos : 1 ≤ s.limit)
+    (hnew : ∀ e ∈ s.pool, e.hash ≠ hash) :
+    (push s hash cycles outputs).pool = s.pool.drop 1 ++ [⟨hash, cycles, outputs, []⟩] := by
+  have hf : s.pool.filter (·.hash ≠ hash) = s.pool := by
+    rw [List.filter_eq_self]
+    intro e he
+    simpa using hnew e he
+  have hn : s.pool.find? (·.hash = hash) = none := find?_hash_eq_none.2 hnew
+  have hp : pushed s hash cycles outputs = s.pool ++ [⟨hash, cycles, outputs, []⟩] := by
+    unfold pushed
+    rw [hf, hn]
+    rfl
+  rw [push_pool, hp, if_pos (by simp only [List.length_append, List.length_cons, List.length_nil]; omega)]
+  exact List.drop_append_of_le_length (by omega)
 
+/-- **C18 (pending status).**  `get_transaction` reports a hash as pending, with the recorded
+cycles, iff it is in the pool and not in the store. -/
+theorem pending_status (s : St) (hash c : Nat) (hinv : PoolInv s) :
+    getTransaction s hash = .pending c ↔
+      ((∀ t ∈ s.stored, t.1 ≠ hash) ∧ ∃ e ∈ s.pool, e.hash = hash ∧ e.cycles = c) := by
+  unfold getTransaction getPending
+  constructor
+  · intro h
+    split at h
+    · simp at h
+    · rename_i hst
+      refine ⟨?_, ?_⟩
+      · simp only [List.any_eq_true, decide_eq_true_eq, not_exists, not_and] at hst
+        exact hst
+      split at h
+      · rename_i e he
+        simp only [TxStatus.pending.injEq] at h
+        have h1 := List.mem_of_find?_eq_some he
+        have h2 := List.find?_some he
+        simp only [decide_eq_true_eq] at h2
+        exact ⟨e, h1, h2, h⟩
+      · simp at h
+  · rintro ⟨hst, e, he, hh, hc⟩
+    have hst' : ¬ (s.stored.any (·.1 = hash) = true) := by
+      simp only [List.any_eq_true, decide_eq_true_eq, not_exists, not_and]
+      exact hst
+    rw [if_neg hst']
+    subst hh
+    rw [find?_hash_of_mem hinv.2 he]
+    simp only [hc]
 
 /-! ## relay announcements -/
 
@@ -41,7 +146,38 @@ def NoEviction : St → List Ev → Prop
      | .submit hash _ _ _ _ => (s.pool.filter (·.hash ≠ hash)).length < s.limit
      | _ => True) ∧ NoEviction (step s ev).1 rest
 
+/-- **C18 (each pending hash is announced to a peer at most once).**  For every history of
+submissions (including re-submissions of pending transactions), connects, disconnects, ticks and
+commits during which no pool entry is evicted, no pair (hash, peer) occurs twice among the
+announcements.  (With evictions the statement holds per residency of the hash in the pool only:
+see `witness_second_residency_reannounced`, a recorded known finding.) -/
+theorem announce_once (limit : Nat) (evs : List Ev)
+    (hne : NoEviction ⟨limit, [], [], []⟩ evs) :
+    (announcements ⟨limit, [], [], []⟩ evs).Nodup := by
+  have key : ∀ (evs : List Ev) (s : St) (log : List (Nat × Nat)),
+      Consistent log s → NoEviction s evs → (log ++ announcements s evs).Nodup := by
+    intro evs
+    induction evs with
+    | nil => intro s log hc _; simpa [announcements] using hc.nodup
+    | cons ev rest ih =>
+      intro s log hc hne
+      have hann : announcements s (ev :: rest) =
+          flat (step s ev).2 ++ announcements (step s ev).1 rest := rfl
+      have hne1 : NoEvict1 s ev := by
+        cases ev <;> first | exact hne.1 | trivial
+      rw [hann, ← List.append_assoc]
+      exact ih _ _ (step_consistent log s ev hc hne1) hne.2
+  have := key evs ⟨limit, [], [], []⟩ [] ⟨List.nodup_nil, by intro hp h; simp at h, List.nodup_nil⟩ hne
+  simpa using this
 
+/-- **C18 (only pool members are announced).**  Every announced hash is in the pool at the time
+of the announcement — in particular a rejected transaction is never relayed. -/
+theorem announced_in_pool (s : St) (ev : Ev) (peer : Nat) (hs : List Nat)
+    (h : (peer, hs) ∈ (step s ev).2) :
+    ∀ x ∈ hs, ∃ e ∈ s.pool, e.hash = x := by
+  intro x hx
+  have := step_anns_subset s ev (peer, hs) h x hx
+  simpa using this
 
 /-- Known finding as a theorem about the model: with pool limit 1, hash 1 is announced to peer 7,
 evicted by hash 2, submitted again and announced to peer 7 a second time. -/
